@@ -2,6 +2,7 @@ package main
 
 import (
 	"crypto/sha256"
+	"errors"
 	"fmt"
 	"os"
 	"path/filepath"
@@ -361,7 +362,7 @@ func dirHash(dir string) string {
 }
 
 // observe opens the image with Recover and records what it shows.
-func (c *crashRunner) observe(img image, dir string, o OptSpec, depth int) (map[string]any, []tapEvent) {
+func (c *crashRunner) observe(img image, dir string, o OptSpec, depth int, retry []int64) (map[string]any, []tapEvent) {
 	os.RemoveAll(dir)
 	os.MkdirAll(dir, 0o700)
 	defer os.RemoveAll(dir)
@@ -369,7 +370,8 @@ func (c *crashRunner) observe(img image, dir string, o OptSpec, depth int) (map[
 		os.WriteFile(filepath.Join(dir, n), b, 0o600)
 	}
 	obs := map[string]any{"err": "", "live": []MM{}, "next": int64(0), "gets": []any{}, "keys": []any{}, "times": []any{}, "statMessages": 0,
-		"hash1": "", "hash2": "", "appendErr": "", "appended": []MM{}, "checkAfter": "", "newmsg": MM{}}
+		"hash1": "", "hash2": "", "appendErr": "", "appended": []MM{}, "checkAfter": "", "newmsg": MM{},
+		"delErr": "", "delset": []int64{}, "deleted": []int64{}, "afterDelete": []MM{}}
 	o.Recover, o.Check, o.RO, o.Eager = true, false, false, false
 	o.Rollover = 1 << 30
 	opts := c.x.options(o)
@@ -506,6 +508,46 @@ func (c *crashRunner) observe(img image, dir string, o OptSpec, depth int) (map[
 	if cerr := klevdb.Check(dir, klevdb.Options{KeyIndex: c.h.Keys, TimeIndex: c.h.Times}); cerr != nil && (!c.h.Times || c.h.Mono) {
 		obs["checkAfter"] = cerr.Error()
 	}
+	// ... and used further: a Delete (the interrupted one again, if it was a Delete; else the oldest message), close,
+	// open with Recover: exactly the reported messages are gone. Whatever an interrupted operation leaves behind in
+	// the directory (temporary files) must not leak into later operations.
+	obs["afterDelete"] = obs["appended"]
+	if obs["appendErr"] != "" || len(all2) == 0 {
+		return obs, events
+	}
+	set := map[int64]struct{}{}
+	delset := []int64{}
+	for _, o := range retry {
+		set[o] = struct{}{}
+		delset = append(delset, o)
+	}
+	if len(set) == 0 {
+		set[all2[0].Offset] = struct{}{}
+		delset = append(delset, all2[0].Offset)
+	}
+	obs["delset"] = delset
+	if l, err = klevdb.Open(dir, c.x.options(o2)); err != nil {
+		obs["delErr"] = "open: " + err.Error()
+		return obs, events
+	}
+	del, _, derr := l.Delete(set)
+	if derr != nil && !errors.Is(derr, klevdb.ErrNotFound) {
+		obs["delErr"] = "delete: " + derr.Error()
+	}
+	obs["deleted"] = msgOffsets(del)
+	if err := l.Close(); err != nil {
+		obs["delErr"] = "close after delete: " + err.Error()
+	}
+	if l, err = klevdb.Open(dir, opts); err != nil {
+		obs["delErr"] = "open with Recover after delete: " + err.Error()
+		return obs, events
+	}
+	all3, _, serr3 := scanLog(l, 32)
+	if serr3 != "" {
+		obs["delErr"] = "scan after delete: " + serr3
+	}
+	obs["afterDelete"] = c.x.conv(all3)
+	l.Close()
 	return obs, events
 }
 
@@ -527,12 +569,16 @@ func (c *crashRunner) eval(img image) {
 		info.Kind = "delete"
 	}
 	dir := filepath.Join(c.root, fmt.Sprintf("img-%d", c.h.ID))
-	obs, events := c.observe(img, dir, c.opts[i], 1)
+	var retry []int64
+	if op.Op == "delete" {
+		retry = op.S
+	}
+	obs, events := c.observe(img, dir, c.opts[i], 1, retry)
 	c.emit(img, S, T, info, obs, 1, img.what)
 	// depth 2: a crash at every step of that recovery, recovered again
 	for k, ev := range events {
 		img2 := image{files: ev.Snap, opIdx: i, between: img.between, ploss: img.ploss, w: img.w}
-		obs2, _ := c.observe(img2, dir, c.opts[i], 2)
+		obs2, _ := c.observe(img2, dir, c.opts[i], 2, retry)
 		c.emit(img2, S, T, info, obs2, 2, fmt.Sprintf("%s; then crash inside the recovery after its step %d (%s %s %s)", img.what, k, ev.Op, ev.Path, ev.Path2))
 		c.nimg++
 	}
